@@ -173,3 +173,30 @@ def c_traverse_calls(n: int, base: int, fail_at: int) -> bool:
     if 0 <= fail_at < n:
         return out.exception() is boom and seen == xs[:fail_at + 1]
     return out.result() == [x * 2 for x in xs] and seen == xs
+
+
+def c_large_counts(sel: int, which: int, bad: int, rev: bool) -> bool:
+    """
+    pre: 0 <= sel <= 1 and 0 <= which <= 2 and -1 <= bad <= 2
+    post: __return__
+    """
+    base = 7
+    # 'and large': 40 / 150 inputs (beyond the 20 named-tuple classes), pending at creation, finished in forward or reverse order;
+    # bad >= 0 fails the input at 0 / the middle / the end first
+    n = 40 if sel == 0 else 150
+    fs = [Future() for _ in range(n)]
+    out = f_zip(*fs) if which == 0 else (f_sequence(fs) if which == 1 else f_traverse(lambda f: f, fs))
+    boom = E("big")
+    if bad >= 0:
+        fs[0 if bad == 0 else (n // 2 if bad == 1 else n - 1)].set_exception(boom)
+    order = range(n - 1, -1, -1) if rev else range(n)
+    for i in order:
+        if not fs[i].done():
+            fs[i].set_result(base + i)
+    if bad >= 0:
+        return out.exception() is boom
+    r = out.result()
+    exp = [base + i for i in range(n)]
+    if which == 0:
+        return isinstance(r, tuple) and len(r) == n and list(r) == exp
+    return type(r) is list and r == exp
